@@ -32,3 +32,15 @@ Proof.
   apply bipartite_roundtrip; [|done|done|by apply default_prefixes_ok].
   apply Inv_wf16, getn_Inv, reachable_Inv.
 Qed.
+
+(** in-place edits through the public mutators keep the premise (history cases of the correspondence) *)
+Lemma apply_edit_Inv s ed : Inv s → Inv (apply_edit s ed).
+Proof.
+  intros Hs. destruct ed; cbn.
+  - by apply add_Inv.
+  - by apply remove_rxn_Inv.
+  - by apply remove_species_Inv.
+  - by apply assign_mol_Inv.
+Qed.
+Lemma edited_wf16 kept rxns mols eds : wf16 (foldl apply_edit (mk_net kept rxns mols) eds).
+Proof. apply Inv_wf16, foldl_Inv; [apply apply_edit_Inv|apply mk_net_Inv]. Qed.
